@@ -164,12 +164,20 @@ def run(tier, seed):
                                                                          "restore_opts": r.get("restore_opts"), "restore_cwd": r.get("restore_cwd")})
     ck.exhaustive = False
     ck.extra["exhaustive_subdomains"] = ["every byte 1-255 except '/' as a name and inside a name (thorough; quick: every 7th)"]
+    # put ... put (interleaved) ... restore: what several simultaneous trash-put runs trashed comes back all the same
+    from . import parworlds
+    parworlds.add_concurrent(ck, tier, seed + 202, oracles=("C02-restore", "no-traceback", "exit", "confinement"),
+                             n_quick=50, n_thorough=800, follow="restore")
     return ck.finish(info, LEVEL_NOTE, RULE)
 
 
 def replay(path):
     import json
     from ..runner import unjsonable
+    from . import parworlds
+    rc = parworlds.replay_concurrent("C02", path, oracles=("C02-restore", "no-traceback", "exit", "confinement"))
+    if rc is not None:
+        return rc
     obj = unjsonable(json.load(open(path)))
     tasks = []
     if isinstance(obj.get("replay"), dict) and obj["replay"].get("task"):
